@@ -169,6 +169,67 @@ theorem retry_only_after_connection_failure (outs : List (Exch ρ)) (hw : WfScri
   simp only [resultOk, observe, Bool.and_eq_true] at h
   exact List.all_eq_true.mp h.1.2
 
+/-! ### every script length of the quantifier (1..4 and beyond), read as the harness reads it
+
+The property quantifies over outcome sequences of length 1..4.  A session script shorter than the number of
+attempts is read as "the last outcome persists" (what the harness' fake session does: it repeats the last
+scripted outcome).  `pad outs o` is the script `outs` followed by its last outcome `o` three more times; for
+it the length hypothesis of `c17_result_ok` holds by itself, so the theorems below have NO length
+hypothesis: they cover every non-empty script literally. -/
+
+/-- `outs ++ [o]` with `o` persisting -/
+def pad (outs : List (Exch ρ)) (o : Exch ρ) : List (Exch ρ) := outs ++ o :: List.replicate 3 o
+
+omit [DecidableEq ρ] in
+theorem wf_pad (outs : List (Exch ρ)) (o : Exch ρ) (hw : WfScript tables (outs ++ [o])) :
+    WfScript tables (pad outs o) := by
+  intro c st hm
+  apply hw c st
+  simp only [pad, List.mem_append, List.mem_cons, List.mem_replicate] at hm
+  simp only [List.mem_append, List.mem_singleton]
+  rcases hm with h | h | ⟨_, h⟩
+  · left; exact h
+  · right; exact h
+  · right; exact h
+
+omit [DecidableEq ρ] in
+theorem len_pad (session : Bool) (outs : List (Exch ρ)) (o : Exch ρ) :
+    (if session then tables.retries else 0) < (pad outs o).length := by
+  have := tables_good.2.2.2
+  cases session <;> simp [pad] <;> omega
+
+/-- **Main theorem without a length hypothesis**: for every requester and every non-empty script
+    `outs ++ [o]` over the transport classes — of length 1, 2, 3, 4, … — the property predicate holds. -/
+theorem c17_result_ok_all_lengths (session : Bool) (outs : List (Exch ρ)) (o : Exch ρ)
+    (hw : WfScript tables (outs ++ [o])) :
+    resultOk tables session (pad outs o) (observe tables (request tables session (pad outs o))) = true :=
+  c17_result_ok session _ (wf_pad outs o hw) (len_pad session outs o)
+
+theorem never_raw_all_lengths (session : Bool) (outs : List (Exch ρ)) (o : Exch ρ)
+    (hw : WfScript tables (outs ++ [o])) :
+    match (request tables session (pad outs o)).1 with
+    | .ret r => ∃ i : Nat, (pad outs o)[i]? = some (Exch.ok r) ∧ ∀ j : Nat, j < i → ∃ c st, (pad outs o)[j]? = some (Exch.exc c st)
+    | .raised k _ => subclass tables k tables.cUpnpComm = true
+    | .swallowed => False :=
+  never_raw session _ (wf_pad outs o hw) (len_pad session outs o)
+
+theorem retry_only_after_connection_failure_all_lengths (outs : List (Exch ρ)) (o : Exch ρ)
+    (hw : WfScript tables (outs ++ [o])) :
+    ∀ x ∈ (pad outs o).take ((request tables true (pad outs o)).2 - 1), connLevel tables x = true :=
+  retry_only_after_connection_failure _ (wf_pad outs o hw) (by simpa using len_pad true outs o)
+
+/-- non-vacuity: scripts of length 1 and 2 for the session requester (which `c17_result_ok` does not reach) -/
+example :
+    request tables true (pad ([] : List (Exch Nat)) (.exc 14 none)) = (.raised 23 none, 3)
+    ∧ request tables true (pad [Exch.exc 17 none] (.ok 5)) = (.ret 5, 2)
+    ∧ WfScript tables ([Exch.exc 17 none] ++ [(.ok 5 : Exch Nat)]) := by
+  refine ⟨by decide, by decide, ?_⟩
+  intro c st h
+  simp only [List.cons_append, List.nil_append, List.mem_cons, Exch.exc.injEq, reduceCtorEq, List.not_mem_nil,
+    or_false] at h
+  obtain ⟨rfl, _⟩ := h
+  decide
+
 /-! ### Host header -/
 
 /-- `host_zone_stripped`: for EVERY URL of the grammar whose host carries a zone identifier
@@ -234,7 +295,45 @@ example :
     ∧ WfUrl { scheme := "http".toList, host := .zoned "FE80::1".toList "%25".toList "eth0".toList,
               port := some "8080".toList, path := "/x".toList } := by
   refine ⟨by decide, by decide, by decide, ?_⟩
-  exact ⟨by decide, by decide, "25".toList, rfl, by decide⟩
+  refine ⟨?_, by decide, by decide, by decide, "25".toList, rfl, by decide⟩
+  intro p hp; simp only [Option.some.injEq] at hp; subst hp; decide
+
+/-- **End to end, text level** (clause 8 in one statement): for every well-formed URL with a zone identifier and
+    ALL default / caller header maps, (i) the text-level transcription of `_fixed_host_header` applied to the
+    rendered URL yields exactly `[` lower-cased address `]` + `:port`, (ii) that is the ONE Host header in what
+    `_request_headers` hands to `session.request`, and (iii) it contains no `%` and is not empty — whatever the
+    zone, its delimiter spelling, and whatever `Host` / `HOST` the caller supplied. -/
+theorem host_header_end_to_end (u : Url) (own caller : Headers) (a d z : Str)
+    (hu : u.host = .zoned a d z) (hw : WfUrl u) :
+    let v := ('[' :: lowerStr a ++ [']']) ++ (match u.port with | some p => ':' :: p | none => [])
+    fixedHostText u.render (some (urlparseHostname u)) (urlparsePort u) = some v
+      ∧ hostValues (requestHeaders u own caller) = [v] ∧ '%' ∉ v ∧ v ≠ [] := by
+  have hw' := hw
+  simp only [WfUrl, hu] at hw'
+  obtain ⟨hport, ha, hcolon, _, _⟩ := hw'
+  have hfix : fixedHost u = some (('[' :: lowerStr a ++ [']']) ++ (match u.port with | some p => ':' :: p | none => [])) := by
+    unfold fixedHost
+    rw [hu]
+    simp only [contains_iff.mpr (colon_mem_lowerStr a hcolon), if_true]
+    cases u.port <;> simp
+  obtain ⟨v, h1, h2, h3, _⟩ := host_zone_stripped u own caller a d z hu ha
+    (fun p hp => percent_not_mem_port p (hport p hp))
+  rw [hfix] at h1
+  cases h1
+  exact ⟨by rw [fixed_host_text u hw, hfix], h3, h2, by simp⟩
+
+/-- **"Repeating THE request"** (clause 7): the retry loop and the final attempt call `_async_http_request`
+    with the same argument list `(method, url, headers, body)`, and both requesters hand exactly
+    `method, url, headers=req_headers, data=body, timeout=self._timeout` to `session.request` — re-decided on the
+    argument lists the translator extracts on every run (the translator also pins
+    `req_headers = _request_headers(url, self._http_headers, headers)` and refuses any other statement before the try). -/
+theorem request_identity :
+    Gen.C17.retryCallArgs = Gen.C17.finalCallArgs
+    ∧ Gen.C17.finalCallArgs = ["method".toList, "url".toList, "headers".toList, "body".toList]
+    ∧ Gen.C17.plainRequestArgs = Gen.C17.innerRequestArgs
+    ∧ Gen.C17.innerRequestArgs = ["method".toList, "url".toList, "headers=req_headers".toList, "data=body".toList,
+        "timeout=self._timeout".toList] := by
+  decide
 
 /-- without a zone nothing is contributed: the headers are the plain merge `{**own, **caller}` -/
 theorem host_untouched_without_zone (u : Url) (own caller : Headers) (h : hasZone u = false) :
